@@ -298,6 +298,8 @@ namespace GeographicLib {
       ix = int(floor(x / tile_)),
       iy = int(floor(y / tile_)),
       ind = (utmp ? 2 : 0) + (northp ? 1 : 0);
+    // y / tile_ underflows to -0 for tiny negative y
+    if (y < 0 && iy == 0) iy = -1;
     if (! (ix >= mineasting_[ind] && ix < maxeasting_[ind]) ) {
       if (ix == maxeasting_[ind] && x == maxeasting_[ind] * tile_)
         x -= eps;
@@ -330,6 +332,8 @@ namespace GeographicLib {
       if (northp && iy < minutmNrow_) {
         northp = false;
         y += utmNshift_;
+        // A tiny negative northing rounds up to the (excluded) equator
+        if (y >= utmNshift_) y = utmNshift_ - eps;
       } else if (!northp && iy >= maxutmSrow_) {
         if (y == maxutmSrow_ * tile_)
           // If on equator retain S hemisphere
